@@ -727,10 +727,14 @@ void macho_parse_fat_file(
   yr_set_integer(yr_be32toh(header->magic), object, "fat_magic");
 
   uint32_t count = yr_be32toh(header->nfat_arch);
-  yr_set_integer(count, object, "nfat_arch");
 
+  // nfat_arch is left undefined when the table it announces doesn't fit in
+  // the file: file_index_for_arch() and entry_point_for_arch() iterate up to
+  // nfat_arch, with a bogus count of some billions they never finished.
   if (size < sizeof(yr_fat_header_t) + count * fat_arch_sz)
     return;
+
+  yr_set_integer(count, object, "nfat_arch");
 
   yr_fat_arch_64_t arch;
 
